@@ -31,7 +31,9 @@ def replay(ctx, rep):
 
 def proxy_scenarios(ctx, out):
     """Two XMI files; a.xmi holds single-valued references (with and without opposite) into b.xmi.  a.xmi is
-    loaded alone, every proxy is resolved in one of the public ways, then an object of b.xmi is deleted.
+    loaded alone, every proxy is resolved in one of the public ways, the roots are then possibly moved into the
+    other resource / out of their resources (holder and target in the same resource or in none), then an object of
+    b.xmi is deleted.
     Many-valued cross-resource references are left out: membership of a resolved proxy in a unique collection
     is C14's known finding (stale hash) and non-unique collections are F-C07-nonunique-duplicate-target."""
     import os
